@@ -64,6 +64,16 @@ def run(ctx):
             if oc[core][off + j] != oa[core][i]:
                 ctx.report([core, "same_case_different_answer_later_in_process"], f"case {i} answered differently when re-run after {off + j} other cases in one process", {"case": "exec1 " + la[i], "first": oa[core][i][:300], "later": oc[core][off + j][:300]})
     ctx.count("repeat_cases", len(sample))
+    # another emulator instance constructed after the one under test (and never used) must not matter: the same sample, plus
+    # every case whose first byte is an intrinsic (RESET, HALT, OFF, TCL, WAIT), run with such a bystander
+    by_idx = sorted(set(sample) | {i for i, c in enumerate(cases) if c[0][:2] in ("ff", "de", "df", "ce", "ef") or c[0][2:4] in ("ff", "de", "df")})
+    ob_by = corr.run_streams(ctx, [la[i] for i in by_idx], {"py": ("py", "exec1_by")})["py"]
+    for i, b in zip(by_idx, ob_by):
+        ctx.evaluations += 1
+        if b != oa["py"][i]:
+            ctx.report(["py", "result_depends_on_other_emulator_instances"], f"case {i}: with an unrelated emulator constructed in the same process the answer changes" + (" and the bystander's state was modified" if "BYSTANDER" in b else ""),
+                       {"case": "exec1 " + la[i], "alone": oa["py"][i][:300], "with_bystander": b[:300]})
+    ctx.count("bystander_cases", len(by_idx))
     # histories: split runs
     progs = c06.program_cases(ctx)
     # plus call/return and interrupt histories, which exercise the call bookkeeping
